@@ -5,9 +5,9 @@ L=${LANE:-0}; WT=/tmp/seedre$L/wt; mkdir -p /tmp/seedre$L
 git -C /repo worktree add -q --detach $WT main 2>/dev/null || { cd $WT && git checkout -q -- . && git checkout -q --detach main; }
 for S in "$@"; do
   D=/verif/seeded/$S; P=${S%%-*}
-  cd $WT; git checkout -q -- .; git clean -qfd -e .numba_cache
+  cd $WT; git reset -q --hard; git clean -qfd -e .numba_cache
   if ! git apply $D/patch.diff 2>/dev/null; then
-    if ! git apply -3 $D/patch.diff 2>/dev/null; then echo "$S APPLY-FAILS"; git checkout -q -- .; continue; fi
+    if ! git apply -3 $D/patch.diff 2>/dev/null; then echo "$S APPLY-FAILS"; git reset -q --hard; continue; fi
     git reset -q
   fi
   PYTHONPATH=$WT NUMBA_CACHE_DIR=$WT/.numba_cache timeout 600 /venv/bin/python -W ignore $D/demo.py >/tmp/seedre$L/demo.out 2>&1; DEMO=$?
